@@ -339,4 +339,69 @@ theorem Ob_MapSlab_Remove_heap_noRestructure (hE : ElemsSpec cfg k v P eb) (hP :
   exact key d t x s depth hd hwf hnd hh hnr rk rv t' c' hrem
 end main
 
+/-! ## non-vacuity -/
+
+namespace MdrEx
+open MeiEx
+/-- threshold 16: min 8, max 24 -/
+def cfg16 : MCfg := { cfg with T := 16 }
+def ebx16 : DEnvB 0 := mei_envH (MElems.ops 0) cfg16 k1 v3 (fun c _ => (.nil, false, none, c))
+theorem ebx16_ok : ElemsSpec cfg16 k1 v3 (fun _ => True) ebx16 :=
+  ElemsSpec.of_EnvB (mei_envH_ok (MElems.ops 0) cfg16 k1 v3 _)
+/-- a heap holding the whole tree `mm` (root + two data slabs) -/
+def s0h : MHSt 0 :=
+  { heap := fun id => if id = ⟨1, 1⟩ then some (.metaSlab (md_meta mm xx)) else s0.heap id, ctx := c0 }
+
+theorem mm_holds : MHolds s0h.heap 1 (mm : MMetaSlab (MTree 0 0)) xx := by
+  refine ⟨rfl, ?_⟩
+  intro c hc
+  have hc' : c ∈ [(dA : MTree 0 0), dB] := hc
+  rcases List.mem_cons.mp hc' with rfl | h
+  · rfl
+  · rcases List.mem_cons.mp h with rfl | h
+    · rfl
+    · cases h
+
+theorem mm_wf : mdr_WF 1 (mm : MMetaSlab (MTree 0 0)) xx := by
+  refine ⟨rfl, by decide, by decide, ?_⟩
+  intro c hc
+  have hc' : c ∈ [(dA : MTree 0 0), dB] := hc
+  rcases List.mem_cons.mp hc' with rfl | h
+  · exact ⟨rfl, rfl⟩
+  · rcases List.mem_cons.mp h with rfl | h
+    · exact ⟨rfl, rfl⟩
+    · cases h
+
+theorem mm_noRestr : mdr_NoRestr cfg16 k1 1 (mm : MMetaSlab (MTree 0 0)) s0h.ctx := by
+  intro i child hf hc
+  have h0 : MMetaSlab.findChild mm.childHdrs (k1.dig 0) 0 mm.childHdrs.length none (mm.childHdrs.length + 1) = some 0 := rfl
+  rw [h0] at hf
+  injection hf with hf
+  subst hf
+  have hc' : child = dA := by
+    have : mm.children[0]? = some dA := rfl
+    exact (Option.some.inj (this.symm.trans hc)).symm
+  subst hc'
+  refine ⟨trivial, ?_⟩
+  intro rk rv child' c1 hq
+  have h1 : MTree.remove cfg16 0 (dA : MDataSlab 0) k1 s0h.ctx = .ok (k1, v1, dA', cA) := rfl
+  rw [h1] at hq
+  injection hq with hq
+  injection hq with _ hq
+  injection hq with _ hq
+  injection hq with hq _
+  subst hq
+  exact ⟨by decide, rfl, rfl⟩
+
+/-- non-vacuity of `Ob_MapSlab_Remove_heap_noRestructure`: the tree `mm` (depth 1) held by `s0h`, `k1` removed -/
+example : ∃ s', MapSlab_Remove (envD 16 ebx16 rsx) (MapMetaDataSlab_Remove (envD 16 ebx16 rsx) 1) (.metaSlab (md_meta mm xx)) s0h k1
+      (u64 0) (u64 5) (.key k1) =
+      some (some (.key k1), some (.val v1), none, .metaSlab (md_meta (mdr_model_m1 mm dA' 0) xx), s') ∧
+    s'.ctx = { ctr := 5, eff := [.store ⟨1, 2⟩, .store ⟨1, 1⟩] } ∧ s'.popped = [] ∧
+    MHeapPost s0h.heap s'.heap (d := 1) (d' := 1) (mm : MMetaSlab (MTree 0 0)) (mdr_model_m1 mm dA' 0 : MMetaSlab (MTree 0 0)) xx ∧
+    md_ids 1 (mdr_model_m1 mm dA' 0 : MMetaSlab (MTree 0 0)) = [⟨1, 1⟩, ⟨1, 2⟩, ⟨1, 3⟩] :=
+  Ob_MapSlab_Remove_heap_noRestructure ebx16 rsx cfg16 k1 v3 _ ebx16_ok (fun _ => trivial) (by decide) (by decide) (by decide)
+    1 (mm : MMetaSlab (MTree 0 0)) xx s0h 1 (Nat.le_refl _) mm_wf (by decide) mm_holds mm_noRestr k1 v1 _ _ rfl
+end MdrEx
+
 end Atree.TransEq
